@@ -37,18 +37,30 @@ Proof.
 Qed.
 
 (** ---- where the fields go: composition ---- *)
-Lemma finsert_refl g c : finsert g g c.
-Proof. intros par l1 tl E. exists []. exact E. Qed.
+Lemma finsert_refl s g c : finsert s g g c.
+Proof. intros par l1 tl E. exists []. split; [exact E|apply sibs_nil]. Qed.
 
-Lemma finsert_trans g g1 g2 c : finsert g g1 c -> finsert g1 g2 c -> finsert g g2 c.
+Lemma finsert_trans s1 s2 g g1 g2 c :
+  finsert s1 g g1 c -> finsert s2 g1 g2 c -> (forall x, glive g x -> glive g1 x) -> carry g s1 g1 s2 g2 -> finsert s2 g g2 c.
 Proof.
-  intros F1 F2 par l1 tl E. destruct (F1 par l1 tl E) as (new1 & E1). destruct (F2 par l1 (new1 ++ tl) E1) as (new2 & E2).
-  exists (new2 ++ new1). rewrite E2, <- app_assoc. reflexivity.
+  intros F1 F2 L C par l1 tl E. destruct (F1 par l1 tl E) as (new1 & E1 & S1). destruct (F2 par l1 (new1 ++ tl) E1) as (new2 & E2 & S2).
+  exists (new2 ++ new1). split; [rewrite E2, <- app_assoc; reflexivity|].
+  apply sibs_app; [eapply sibs_old; eauto|eapply sibs_carry; eauto].
 Qed.
 
-Lemma finsert_same g g' c : (forall y, In c (kids g y) -> kids g' y = kids g y) -> finsert g g' c.
+Lemma finsert_same s' g g' c : (forall y, In c (kids g y) -> kids g' y = kids g y) -> finsert s' g g' c.
 Proof.
-  intros H par l1 tl E. exists []. rewrite H; [exact E|]. rewrite E. apply in_or_app. right. left. reflexivity.
+  intros H par l1 tl E. exists []. split; [|apply sibs_nil]. rewrite H; [exact E|]. rewrite E. apply in_or_app. right. left. reflexivity.
+Qed.
+
+Lemma carry_append g s1 g1 s2 g2 c :
+  pframe (p_tree s1) (p_tree s2) -> (forall q, q <> c -> kids g2 q = kids g1 q) -> (forall x, glive g2 x <-> glive g1 x) ->
+  glive g c -> carry g s1 g1 s2 g2.
+Proof.
+  intros Hpf Hk Hlv Hc x Hl Hn Hkx (o & Ho & Hrow).
+  split; [apply Hlv; exact Hl|]. split.
+  - rewrite Hk; [exact Hkx|]. intros E. apply Hn. rewrite E. exact Hc.
+  - destruct (proj2 Hpf _ _ Ho) as (o' & Ho' & (_ & Ei & _)). exists o'. split; [exact Ho'|]. rewrite Ei. exact Hrow.
 Qed.
 
 Section StepG.
@@ -105,7 +117,7 @@ Proof.
   pose proof (argCount_le8 af) as Hcnt. pose proof (fi_R _ _ H) as HR. pose proof (R_gwf _ _ HR) as Hwf.
   assert (Hdone : argCount af <= argIndex ->
     exists g', FD s g' /\ ExtD s g s g' /\ Fr NoP (eq curObj) (fun y => has_fl af /\ In curObj (kids g y)) s g s g' /\
-      finsert g g' curObj /\ Psi s <= Psi s + 3 /\
+      finsert s g g' curObj /\ Psi s <= Psi s + 3 /\
       (okres ROk -> Psi s <= Psi s + cntu af argIndex /\ TM NoX s g' /\ p_scopeStack s = p_scopeStack s)).
   { intros Hc. exists g. split; [exact H|]. split; [apply ExtD_refl|]. split; [apply Fr_refl|]. split; [apply finsert_refl|].
     split; [lia|]. intros _. split; [lia|]. split; [|reflexivity]. eapply mbA_done; eauto. }
@@ -161,14 +173,16 @@ Proof.
       destruct (N.eq_dec y curObj) as [->|Hne].
       + split; [rewrite Hk2, Ee1, <- app_assoc; eexists; reflexivity|]. intros F. exfalso. apply F. reflexivity.
       + rewrite (Hk2' y Hne). split; [exists e1; exact Ee1|]. exact B1. }
-  assert (Hfi2 : finsert g g2 curObj).
-  { apply finsert_trans with (g1 := g1).
+  assert (Hfi2 : finsert s2 g g2 curObj).
+  { apply finsert_trans with (s1 := s1) (g1 := g1).
     - destruct (N.eq_dec argTy aml_pArgTypeFieldList) as [E|E]; [apply Hfi1; exact E|].
       apply finsert_same. intros y Hin. assert (Hy : glive g y) by (apply (Hwf y curObj Hin)).
       destruct (fr_kids _ _ _ _ _ _ _ F1 y Hy) as (_ & Hex); [intros (F & _); contradiction|].
       apply Hex. intros Ey. subst y. eapply (R_child_neq_parent _ _ HR); eauto.
     - apply finsert_same. intros y Hin. apply Hk2'. intros Ey. subst y.
-      eapply (R_child_neq_parent _ _ (fi_R _ _ H1)); eauto. }
+      eapply (R_child_neq_parent _ _ (fi_R _ _ H1)); eauto.
+    - apply (ge_live _ _ G1).
+    - eapply carry_append; eauto. }
   assert (HX2 : ExtD s g s2 g2).
   { constructor; [exact G2| | |].
     - rewrite El2. apply (xd_len _ _ _ _ X1).
@@ -275,7 +289,11 @@ Proof.
       split.
       { eapply Fr_trans; [exact F2|exact F3|apply (ge_live _ _ G2)|auto|auto|].
         intros y Hy (Hf & Hin). split; [exact Hf|]. apply (ge_old _ _ G2 y curObj Hin Hl). }
-      split; [eapply finsert_trans; eauto|].
+      split.
+      { eapply finsert_trans; [exact Hfi2|exact Hfi3|apply (ge_live _ _ G2)|].
+        apply (Fr_carry _ _ _ g s2 g2 s3 g3 F3 (xd_g _ _ _ _ X3)).
+        - intros x <-. exact Hl.
+        - intros y (_ & Hin) E. rewrite E in Hin. exact Hin. }
       split; [lia|]. intros Hr. destruct (Hok3 Hr) as (L1 & L2 & L3). pose proof (cntu_mono af argIndex).
       split; [lia|]. split; [exact L2|congruence].
 Qed.
